@@ -1376,6 +1376,48 @@ proof fn lemma_advance(all: Seq<u8>, c: Ctx, rg: Seq<u8>, ops: Seq<Seq<char>>, f
     reveal(arm_ok);
 }
 
+/// function arm, step 1: the offsets of the last `ops.len() - k` operands were split off the stack
+proof fn lemma_func_prep(f: Seq<char>, st: Seq<usize>, ops: Seq<Seq<char>>, k: int, a0: Seq<usize>)
+    requires repr(f, st, ops), 0 <= k < ops.len(), a0 == st.subrange(k, st.len() as int),
+    ensures
+        a0.len() == ops.len() - k, a0[0] == st[k],
+        forall|i: int| 0 <= i < a0.len() ==> (#[trigger] a0[i]) >= a0[0],
+        ({
+            let p = cat(ops.take(k));
+            let q = cat(ops.skip(k));
+            &&& a0[0] as int == blen(p) && is_bnd(f, a0[0] as int) && cidx(f, a0[0] as int) == p.len()
+            &&& f.take(p.len() as int) == p && f.skip(p.len() as int) == q
+            &&& st.subrange(0, k) == st.take(k)
+            &&& repr(p, st.take(k), ops.take(k))
+        }),
+{
+    lemma_repr_basics(f, st, ops);
+    lemma_repr_mono(f, st, ops, k);
+    lemma_repr_at(f, st, ops, k);
+    assert(st.subrange(0, k) =~= st.take(k));
+    assert forall|i: int| 0 <= i < a0.len() implies (#[trigger] a0[i]) >= a0[0] by { assert(a0[i] == st[k + i]); assert(st[k] <= st[k + i]); }
+}
+/// function arm, step 2: after the start offset was subtracted, the offsets are those of the operands of the cut-off text
+proof fn lemma_func_offs(f: Seq<char>, st: Seq<usize>, ops: Seq<Seq<char>>, k: int, a0: Seq<usize>, a1: Seq<usize>)
+    requires
+        repr(f, st, ops), 0 <= k < ops.len(), a0 == st.subrange(k, st.len() as int), a1.len() == a0.len(),
+        forall|i: int| 0 <= i < a0.len() ==> (#[trigger] a1[i]) as int == a0[i] - a0[0],
+    ensures repr(cat(ops.skip(k)), a1, ops.skip(k)),
+{
+    lemma_repr_basics(f, st, ops);
+    lemma_repr_mono(f, st, ops, k);
+    assert forall|i: int| 0 <= i < a1.len() implies (#[trigger] a1[i]) as int == st[k + i] - st[k] by { assert(a0[i] == st[k + i]); assert(a0[0] == st[k]); }
+    lemma_repr_suffix(f, st, ops, k, a1);
+}
+/// function arm, step 3: the length of the cut-off text is pushed behind the offsets
+proof fn lemma_func_offs_push(q: Seq<char>, a1: Seq<usize>, aa: Seq<Seq<char>>, a2: Seq<usize>)
+    requires repr(q, a1, aa), blen(q) <= usize::MAX, a2 == a1.push(blen(q) as usize),
+    ensures a2.len() == aa.len() + 1, repr(q, a2.take(aa.len() as int), aa), a2[aa.len() as int] as int == blen(q),
+{
+    lemma_repr_basics(q, a1, aa);
+    assert(a2.take(aa.len() as int) =~= a1);
+}
+
 pub mod m_wf {
 use super::*;
 verus! {
@@ -1414,171 +1456,193 @@ verus! {
             lemma_byte_masks();
             if ops_in.len() > 0 { lemma_repr_at(f_in, st_in, ops_in, ops_in.len() - 1); }
         }
-//@@ after /0x01 => \{/
-                proof { assume(false); } // DEV
-//@@ after /0x03\.\.=0x11 => \{/
-                proof { assume(false); } // DEV
-//@@ after /0x12 => \{/
-                proof { assume(false); } // DEV
-//@@ after /0x13 => \{/
-                proof { assume(false); } // DEV
-//@@ after /0x14 => \{/
-                proof { assume(false); } // DEV
-//@@ after /0x15 => \{/
-                proof { assume(false); } // DEV
-//@@ after /0x16 => \{/
-                proof { assume(false); } // DEV
-//@@ after /0x17 => \{/
-                proof { assume(false); } // DEV
-//@@ after /0x18 => \{/
-                proof { assume(false); } // DEV
-//@@ after /0x19 => \{/
-                proof { assume(false); } // DEV
-//@@ after /0x1C => \{/
-                proof { assume(false); } // DEV
-//@@ after /0x1D => \{/
-                proof { assume(false); } // DEV
-//@@ after /0x1E => \{/
-                proof { assume(false); } // DEV
-//@@ after /0x1F => \{/
-                proof { assume(false); } // DEV
-//@@ after /0x20 \| 0x40 \| 0x60 => \{/
-                proof { assume(false); } // DEV
-//@@ after /0x23 \| 0x43 \| 0x63 => \{/
-                proof { assume(false); } // DEV
-//@@ after /0x24 \| 0x44 \| 0x64 => \{/
-                proof { assume(false); } // DEV
-//@@ after /0x25 \| 0x45 \| 0x65 => \{/
-                proof { assume(false); } // DEV
-//@@ after /0x2A \| 0x4A \| 0x6A => \{/
-                proof { assume(false); } // DEV
-//@@ after /0x2B \| 0x4B \| 0x6B => \{/
-                proof { assume(false); } // DEV
-//@@ after /0x39 \| 0x59 => \{/
-                proof { assume(false); } // DEV
 //@@ before /\}\s*0x3b \| 0x5b \| 0x7b =>/
                 proof {
-                    assume(arm_ok(rg_in, ops_in, ctx, f_in, st_in, rgce@, formula@, stack@)); // DEV
+                    let sh = sheet_name(le16(rg_in.skip(1)), ctx)->Some_0;
+                    let rw = le16(rg_in.skip(1).skip(2));
+                    let cf = le16(rg_in.skip(1).skip(4));
+                    lemma_cell_text_pieces(f_in + sh + seq!['!'], rw, cf);
+                    lemma_assoc(f_in, sh + seq!['!'], cell_text(rw, cf)); lemma_assoc(f_in, sh, seq!['!']);
+                    assert(rgce@ =~= rg_in.skip(7));
+                    step_operand(A::ptgref3d, rg_in, ops_in, ctx, f_in, st_in, rgce@, formula@, stack@, sh + seq!['!'] + cell_text(rw, cf), 7);
                     lemma_advance(__p_rgce@, ctx, rg_in, ops_in, f_in, st_in, rgce@, formula@, stack@);
                 }
 //@@ before /\}\s*0x3c \| 0x5c \| 0x7c =>/
                 proof {
-                    assume(arm_ok(rg_in, ops_in, ctx, f_in, st_in, rgce@, formula@, stack@)); // DEV
+                    let sh = sheet_name(le16(rg_in.skip(1)), ctx)->Some_0;
+                    let ixti = le16(rg_in.skip(1));
+                    let r1 = le16(rg_in.skip(1).skip(2)); let r2 = le16(rg_in.skip(1).skip(4)); let cf1 = le16(rg_in.skip(1).skip(6)); let cf2 = le16(rg_in.skip(1).skip(8));
+                    let t = sh + seq!['!'] + area_text(r1, r2, cf1, cf2);
+                    let shc = if ixti < ctx.sheets.len() { ctx.sheets[ixti] } else { "#REF"@ };
+                    ptg3d_sheet(ixti, ctx, shc);
+                    lemma_push_add(f_in + shc, '!');
+                    ptgarea_text(f_in + shc + seq!['!'], r1, r2, cf1, cf2, formula@);
+                    lemma_assoc(f_in, sh + seq!['!'], area_text(r1, r2, cf1, cf2)); lemma_assoc(f_in, sh, seq!['!']);
+                    assert(rgce@ =~= rg_in.skip(11));
+                    step_operand(A::ptgarea3d, rg_in, ops_in, ctx, f_in, st_in, rgce@, formula@, stack@, t, 11);
                     lemma_advance(__p_rgce@, ctx, rg_in, ops_in, f_in, st_in, rgce@, formula@, stack@);
                 }
 //@@ before /\}\s*0x3d \| 0x5d \| 0x7d =>/
                 proof {
-                    assume(arm_ok(rg_in, ops_in, ctx, f_in, st_in, rgce@, formula@, stack@)); // DEV
+                    let sh = sheet_name(le16(rg_in.skip(1)), ctx)->Some_0;
+                    let ixti = le16(rg_in.skip(1));
+                    let t = sh + seq!['!'] + "#REF!"@;
+                    let shc = if ixti < ctx.sheets.len() { ctx.sheets[ixti] } else { "#REF"@ };
+                    ptg3d_sheet(ixti, ctx, shc);
+                    assert(formula@ =~= f_in + t);
+                    assert(rgce@ =~= rg_in.skip(7));
+                    step_operand(A::ptgreferr3d, rg_in, ops_in, ctx, f_in, st_in, rgce@, formula@, stack@, t, 7);
                     lemma_advance(__p_rgce@, ctx, rg_in, ops_in, f_in, st_in, rgce@, formula@, stack@);
                 }
 //@@ before /\}\s*0x01 =>/
                 proof {
-                    assume(arm_ok(rg_in, ops_in, ctx, f_in, st_in, rgce@, formula@, stack@)); // DEV
+                    let sh = sheet_name(le16(rg_in.skip(1)), ctx)->Some_0;
+                    let ixti = le16(rg_in.skip(1));
+                    let t = sh + seq!['!'] + "#REF!"@;
+                    let shc = if ixti < ctx.sheets.len() { ctx.sheets[ixti] } else { "#REF"@ };
+                    ptg3d_sheet(ixti, ctx, shc);
+                    assert(formula@ =~= f_in + t);
+                    assert(rgce@ =~= rg_in.skip(11));
+                    step_operand(A::ptgareaerr3d, rg_in, ops_in, ctx, f_in, st_in, rgce@, formula@, stack@, t, 11);
                     lemma_advance(__p_rgce@, ctx, rg_in, ops_in, f_in, st_in, rgce@, formula@, stack@);
                 }
 //@@ before /\}\s*0x03\.\.=0x11 =>/
                 proof {
-                    assume(arm_ok(rg_in, ops_in, ctx, f_in, st_in, rgce@, formula@, stack@)); // DEV
+                    step_none(A::ptgexp, rg_in, ops_in, ctx, f_in, st_in, rgce@, formula@, stack@);
                     lemma_advance(__p_rgce@, ctx, rg_in, ops_in, f_in, st_in, rgce@, formula@, stack@);
                 }
 //@@ before /\}\s*0x12 =>/
                 proof {
-                    assume(arm_ok(rg_in, ops_in, ctx, f_in, st_in, rgce@, formula@, stack@)); // DEV
+                    binary_symbol(rg_in[0] as int, op@);
+                    assert(stack@ =~= st_in.drop_last());
+                    assert(rgce@ =~= rg_in.skip(1));
+                    step_binary(A::binary, rg_in, ops_in, ctx, f_in, st_in, rgce@, formula@, stack@, op@);
                     lemma_advance(__p_rgce@, ctx, rg_in, ops_in, f_in, st_in, rgce@, formula@, stack@);
                 }
 //@@ before /\}\s*0x13 =>/
                 proof {
-                    assume(arm_ok(rg_in, ops_in, ctx, f_in, st_in, rgce@, formula@, stack@)); // DEV
+                    assert(rgce@ =~= rg_in.skip(1));
+                    step_prefix(A::unary_plus, rg_in, ops_in, ctx, f_in, st_in, rgce@, formula@, stack@, '+');
                     lemma_advance(__p_rgce@, ctx, rg_in, ops_in, f_in, st_in, rgce@, formula@, stack@);
                 }
 //@@ before /\}\s*0x14 =>/
                 proof {
-                    assume(arm_ok(rg_in, ops_in, ctx, f_in, st_in, rgce@, formula@, stack@)); // DEV
+                    assert(rgce@ =~= rg_in.skip(1));
+                    step_prefix(A::unary_minus, rg_in, ops_in, ctx, f_in, st_in, rgce@, formula@, stack@, '-');
                     lemma_advance(__p_rgce@, ctx, rg_in, ops_in, f_in, st_in, rgce@, formula@, stack@);
                 }
 //@@ before /\}\s*0x15 =>/
                 proof {
-                    assume(arm_ok(rg_in, ops_in, ctx, f_in, st_in, rgce@, formula@, stack@)); // DEV
+                    assert(rgce@ =~= rg_in.skip(1));
+                    step_percent(A::percent, rg_in, ops_in, ctx, f_in, st_in, rgce@, formula@, stack@);
                     lemma_advance(__p_rgce@, ctx, rg_in, ops_in, f_in, st_in, rgce@, formula@, stack@);
                 }
 //@@ before /\}\s*0x16 =>/
                 proof {
-                    assume(arm_ok(rg_in, ops_in, ctx, f_in, st_in, rgce@, formula@, stack@)); // DEV
+                    assert(rgce@ =~= rg_in.skip(1));
+                    step_paren(A::paren, rg_in, ops_in, ctx, f_in, st_in, rgce@, formula@, stack@);
                     lemma_advance(__p_rgce@, ctx, rg_in, ops_in, f_in, st_in, rgce@, formula@, stack@);
                 }
 //@@ before /\}\s*0x17 =>/
                 proof {
-                    assume(arm_ok(rg_in, ops_in, ctx, f_in, st_in, rgce@, formula@, stack@)); // DEV
+                    lemma_push_add(f_in, 'x');
+                    assert(rgce@ =~= rg_in.skip(1));
+                    step_operand(A::ptgmissarg, rg_in, ops_in, ctx, f_in, st_in, rgce@, formula@, stack@, Seq::empty(), 1);
                     lemma_advance(__p_rgce@, ctx, rg_in, ops_in, f_in, st_in, rgce@, formula@, stack@);
                 }
 //@@ before /\}\s*0x18 =>/
                 proof {
-                    assume(arm_ok(rg_in, ops_in, ctx, f_in, st_in, rgce@, formula@, stack@)); // DEV
+                    let d = rg_in.skip(1);
+                    let hb = d[1] & 0x1 != 0;
+                    let n = d[0] as int * xl_width(hb);
+                    let t = seq!['"'] + xl_chars(ctx.enc, hb, d.subrange(2, 2 + n)) + seq!['"'];
+                    assert(d.skip(1).subrange(1, 1 + n) =~= d.subrange(2, 2 + n));
+                    //# C14.ptgstr_text_in_quotes
+                    assert(formula@ =~= f_in + t);
+                    assert(rgce@ =~= rg_in.skip(3 + d[0] as int));
+                    ptgstr_length(d[0] as int, hb, 2 + d[0] as int);
+                    step_operand(A::ptgstr, rg_in, ops_in, ctx, f_in, st_in, rgce@, formula@, stack@, t, 3 + n);
                     lemma_advance(__p_rgce@, ctx, rg_in, ops_in, f_in, st_in, rgce@, formula@, stack@);
                 }
 //@@ before /\}\s*0x19 =>/
                 proof {
-                    assume(arm_ok(rg_in, ops_in, ctx, f_in, st_in, rgce@, formula@, stack@)); // DEV
+                    step_none(A::ptg18, rg_in, ops_in, ctx, f_in, st_in, rgce@, formula@, stack@);
                     lemma_advance(__p_rgce@, ctx, rg_in, ops_in, f_in, st_in, rgce@, formula@, stack@);
                 }
 //@@ before /\}\s*0x1C =>/
                 proof {
-                    assume(arm_ok(rg_in, ops_in, ctx, f_in, st_in, rgce@, formula@, stack@)); // DEV
+                    let n = len_of(rg_in, ctx);
+                    assert(rgce@ =~= rg_in.skip(n));
+                    if etpg == 0x10 { step_sum(A::ptgattr, rg_in, ops_in, ctx, f_in, st_in, rgce@, formula@, stack@); } else { step_skip(A::ptgattr, rg_in, ops_in, ctx, f_in, st_in, rgce@, formula@, stack@, n); }
                     lemma_advance(__p_rgce@, ctx, rg_in, ops_in, f_in, st_in, rgce@, formula@, stack@);
                 }
 //@@ before /\}\s*0x1D =>/
                 proof {
-                    assume(arm_ok(rg_in, ops_in, ctx, f_in, st_in, rgce@, formula@, stack@)); // DEV
+                    assert(rgce@ =~= rg_in.skip(2));
+                    step_operand(A::ptgerr, rg_in, ops_in, ctx, f_in, st_in, rgce@, formula@, stack@, err_text(rg_in.skip(1)[0] as int)->Some_0, 2);
                     lemma_advance(__p_rgce@, ctx, rg_in, ops_in, f_in, st_in, rgce@, formula@, stack@);
                 }
 //@@ before /\}\s*0x1E =>/
                 proof {
-                    assume(arm_ok(rg_in, ops_in, ctx, f_in, st_in, rgce@, formula@, stack@)); // DEV
+                    assert(rgce@ =~= rg_in.skip(2));
+                    step_operand(A::ptgbool, rg_in, ops_in, ctx, f_in, st_in, rgce@, formula@, stack@, (if rg_in.skip(1)[0] == 0 { "FALSE"@ } else { "TRUE"@ }), 2);
                     lemma_advance(__p_rgce@, ctx, rg_in, ops_in, f_in, st_in, rgce@, formula@, stack@);
                 }
 //@@ before /\}\s*0x1F =>/
                 proof {
-                    assume(arm_ok(rg_in, ops_in, ctx, f_in, st_in, rgce@, formula@, stack@)); // DEV
+                    assert(rgce@ =~= rg_in.skip(3));
+                    step_operand(A::ptgint, rg_in, ops_in, ctx, f_in, st_in, rgce@, formula@, stack@, dec(le16(rg_in.skip(1)) as nat), 3);
                     lemma_advance(__p_rgce@, ctx, rg_in, ops_in, f_in, st_in, rgce@, formula@, stack@);
                 }
 //@@ before /\}\s*0x20 \| 0x40 \| 0x60 =>/
                 proof {
-                    assume(arm_ok(rg_in, ops_in, ctx, f_in, st_in, rgce@, formula@, stack@)); // DEV
+                    assert(rgce@ =~= rg_in.skip(9));
+                    step_operand(A::ptgnum, rg_in, ops_in, ctx, f_in, st_in, rgce@, formula@, stack@, display::<f64>(f64_of_bits(le64(rg_in.skip(1)))), 9);
                     lemma_advance(__p_rgce@, ctx, rg_in, ops_in, f_in, st_in, rgce@, formula@, stack@);
                 }
 //@@ before /\}\s*0x21 \| 0x22 \| 0x41/
                 proof {
-                    assume(arm_ok(rg_in, ops_in, ctx, f_in, st_in, rgce@, formula@, stack@)); // DEV
+                    step_none(A::ptgarray, rg_in, ops_in, ctx, f_in, st_in, rgce@, formula@, stack@);
                     lemma_advance(__p_rgce@, ctx, rg_in, ops_in, f_in, st_in, rgce@, formula@, stack@);
                 }
 //@@ before /\}\s*0x24 \| 0x44 \| 0x64 =>/
                 proof {
-                    assume(arm_ok(rg_in, ops_in, ctx, f_in, st_in, rgce@, formula@, stack@)); // DEV
+                    assert(rgce@ =~= rg_in.skip(5));
+                    step_operand(A::ptgname, rg_in, ops_in, ctx, f_in, st_in, rgce@, formula@, stack@, ctx.names[le32(rg_in.skip(1)) - 1], 5);
                     lemma_advance(__p_rgce@, ctx, rg_in, ops_in, f_in, st_in, rgce@, formula@, stack@);
                 }
 //@@ before /\}\s*0x25 \| 0x45 \| 0x65 =>/
                 proof {
-                    assume(arm_ok(rg_in, ops_in, ctx, f_in, st_in, rgce@, formula@, stack@)); // DEV
+                    let rw = le16(rg_in.skip(1));
+                    let cf = le16(rg_in.skip(1).skip(2));
+                    lemma_cell_text_pieces(f_in, rw, cf);
+                    assert(rgce@ =~= rg_in.skip(5));
+                    step_operand(A::ptgref, rg_in, ops_in, ctx, f_in, st_in, rgce@, formula@, stack@, cell_text(rw, cf), 5);
                     lemma_advance(__p_rgce@, ctx, rg_in, ops_in, f_in, st_in, rgce@, formula@, stack@);
                 }
 //@@ before /\}\s*0x2A \| 0x4A \| 0x6A =>/
                 proof {
-                    assume(arm_ok(rg_in, ops_in, ctx, f_in, st_in, rgce@, formula@, stack@)); // DEV
+                    let r1 = le16(rg_in.skip(1)); let r2 = le16(rg_in.skip(1).skip(2)); let cf1 = le16(rg_in.skip(1).skip(4)); let cf2 = le16(rg_in.skip(1).skip(6));
+                    ptgarea_text(f_in, r1, r2, cf1, cf2, formula@);
+                    assert(rgce@ =~= rg_in.skip(9));
+                    step_operand(A::ptgarea, rg_in, ops_in, ctx, f_in, st_in, rgce@, formula@, stack@, area_text(r1, r2, cf1, cf2), 9);
                     lemma_advance(__p_rgce@, ctx, rg_in, ops_in, f_in, st_in, rgce@, formula@, stack@);
                 }
 //@@ before /\}\s*0x2B \| 0x4B \| 0x6B =>/
                 proof {
-                    assume(arm_ok(rg_in, ops_in, ctx, f_in, st_in, rgce@, formula@, stack@)); // DEV
+                    assert(rgce@ =~= rg_in.skip(5));
+                    step_operand(A::ptgreferr, rg_in, ops_in, ctx, f_in, st_in, rgce@, formula@, stack@, "#REF!"@, 5);
                     lemma_advance(__p_rgce@, ctx, rg_in, ops_in, f_in, st_in, rgce@, formula@, stack@);
                 }
 //@@ before /\}\s*0x39 \| 0x59 =>/
                 proof {
-                    assume(arm_ok(rg_in, ops_in, ctx, f_in, st_in, rgce@, formula@, stack@)); // DEV
+                    assert(rgce@ =~= rg_in.skip(9));
+                    step_operand(A::ptgareaerr, rg_in, ops_in, ctx, f_in, st_in, rgce@, formula@, stack@, "#REF!"@, 9);
                     lemma_advance(__p_rgce@, ctx, rg_in, ops_in, f_in, st_in, rgce@, formula@, stack@);
                 }
 //@@ before /\}\s*_ => \{\s*return Err\(XlsError::Unrecognized \{\s*typ: \"ptg\"/
                 proof {
-                    assume(arm_ok(rg_in, ops_in, ctx, f_in, st_in, rgce@, formula@, stack@)); // DEV
+                    step_none(A::ptgnamex, rg_in, ops_in, ctx, f_in, st_in, rgce@, formula@, stack@);
                     lemma_advance(__p_rgce@, ctx, rg_in, ops_in, f_in, st_in, rgce@, formula@, stack@);
                 }
 //@@ before /push_column\(col as u32, &mut formula\);/#1of2
@@ -1643,20 +1707,7 @@ verus! {
                     let ghost aa = ops_in.skip(k0);
                     let ghost pp = cat(ops_in.take(k0));
                     let ghost qq = cat(aa);
-                    proof { lemma_repr_mono(f_in, st_in, ops_in, k0); }
-                    let ghost offs = Seq::new(argc as nat, |i: int| (st_in[k0 + i] - st_in[k0]) as usize);
-                    proof {
-                        assert(a0 =~= st_in.skip(k0));
-                        lemma_repr_at(f_in, st_in, ops_in, k0);
-                        assert forall|i: int| 0 <= i < offs.len() implies (#[trigger] offs[i]) as int == st_in[k0 + i] - st_in[k0] by {
-                            assert(st_in[k0] <= st_in[k0 + i]);
-                        }
-                        lemma_repr_suffix(f_in, st_in, ops_in, k0, offs);
-                    }
-//@@ after /let start = args\[0\];/
-                    proof {
-                        assert forall|i: int| 0 <= i < a0.len() implies (#[trigger] a0[i]) >= start by { assert(a0[i] == st_in[k0 + i]); assert(st_in[k0] <= st_in[k0 + i]); }
-                    }
+                    proof { lemma_func_prep(f_in, st_in, ops_in, k0, a0); }
 //@@ loop 2 it2
                         invariant
                             it2.seq().len() == a0.len(), a0.len() == argc, argc > 0,
@@ -1666,15 +1717,17 @@ verus! {
 //@@ before /\*s -= start;/
                         proof { assert(*s == a0[it2.index@ as int]); }
 //@@ before /let fargs = formula\.split_off\(start\);/
+                    let ghost a1 = args@;
                     proof {
-                        assert(args@ =~= offs);
+                        assert forall|i: int| 0 <= i < a0.len() implies (#[trigger] a1[i]) as int == a0[i] - a0[0] by { }
+                        lemma_func_offs(f_in, st_in, ops_in, k0, a0, a1);
                     }
 //@@ before /for w in args\.windows\(2\)/
                     let ghost mut k3: int = 0;
                     let ghost hd = formula@;
                     let ghost nm = ftab_name(iftab as int);
                     proof {
-                        assert(args@.take(argc as int) =~= offs);
+                        lemma_func_offs_push(qq, a1, aa, args@);
                         assert(joinc(aa, 0) =~= Seq::<char>::empty());
                         lemma_push_add(hd, 'x');
                         assert(args@.len() == args.len());
